@@ -240,6 +240,10 @@ def judgeBatchRoot (env : Env) (root : NodeId) (vis : NodeId → Nat) (cf : Bool
       let items := normItems cfg.shape l
       let c := concCfgOf env.kind cfg scr items.length
       let v := batchViewOf o
+      -- "the run ends with post's own outcome": an action when post succeeds, post's error when post itself fails
+      let v := match scr.post.res, o.out with
+        | .error e, .err (.user e') => { v with outOk := e == e' }
+        | _, _ => v
       if !cfg.hasPost then [] else
       [("C06", c06 c (items.map Result.box) v), ("C07", !cf || c07 c v), ("C08", c08 c (cfg.conc == 0) v),
        ("C09", c09 c v), ("C11", c11 c v), ("C02b", !cf || c02Batch c v),
@@ -260,7 +264,13 @@ def plainPayloadsB (cfg : LeafCfg) (scr : LeafScript) : Bool :=
   (match prepValue cfg scr with | some pv => pv.asResult?.isNone | none => true)
   && (List.range 64).all fun k =>
       match (scr.exec k).res with
-      | .ok y => (if cfg.execS = .res then (toResult y).valueOf else y).asResult?.isNone
+      | .ok y =>
+        -- what exec hands on may itself be a (successful) `flyt.Result` — it reaches post wrapped exactly once like any
+        -- other payload; only an ERROR Result used as a plain payload is outside C17 (it is indistinguishable from the
+        -- error state of exec's own Result, boundary B2)
+        (match (if cfg.execS = .res then (toResult y).valueOf else y).asResult? with
+         | none => true
+         | some r => !r.isError)
       | .error _ => true
 
 /-- all property predicates for one run, on an observation `o` -/
@@ -286,7 +296,7 @@ def judgeRun (env : Env) (ctx0 : Ctx) (root : NodeId) (vis : NodeId → Nat) (ca
   -- any other visit (of any node) follows; a batch node run directly is judged by `judgeBatchRoot`
   let c11f := (match env.arena root with | .batch _ => true | _ => false) || Spec.c11Flow env ctx0 o
   -- C17 speaks of payloads that are not themselves `flyt.Result`s (`Proofs.Payload.PlainPayloads`, boundary B2)
-  let c17 := leafSegs.all (fun (cfg, scr, _, seg) => !plainPayloadsB cfg scr || c17Visit cfg scr seg)
+  let c17 := leafSegs.all (fun (cfg, scr, _, seg) => (!plainPayloadsB cfg scr || c17Visit cfg scr seg) && c17Fallback cfg scr seg)
   let c18 := Spec.c18 o && (!cancelFree || !allPrep || Spec.c18Followed env root o)
   let bj := judgeBatchRoot env root vis cancelFree o
   let c02 := c02 && (bj.all fun (k, b) => k != "C02b" || b)
